@@ -7,7 +7,6 @@ package api
 // ---- C15: the byte size of a capacity request is exact (no wrap-around) and checked against the free space
 
 //@ func checkMinerDiskSize
-//@   requires sk != nil
 //@   ensures accepted-is-exact-and-fits: err == nil ==> requiredMiBytes * 1048576 <= 18446744073709551615 && requiredMiBytes * 1048576 >= 100663296
 //@   assert-at return#5 fits-free-space: requiredBytes <= availableBytes && requiredBytes == requiredMiBytes * 1048576
 
@@ -16,7 +15,6 @@ package api
 //@   assert-at return#5 fits-free-space: requiredBytes <= usage.Free && requiredBytes == requiredMiBytes * 1048576
 
 //@ func checkMinerPathCapacity
-//@   requires sk != nil
 //@   assert-at call IsCapacityAvailable exact-bytes: arg2 == requiredMiBytes * 1048576
 
 //@ func (*Server).ConfigureCapacity
